@@ -179,6 +179,28 @@ def gen_cases(rng, tier):
       node = {"k": "product", "a": [spec.gen_form(rng, positive=True), node]}
     rs = sorted(set([round(r0, 12), round(r0 * 0.5, 6), round(r0 * 1.5, 6), round(r0 + 0.25, 6), max(0.1, round(r0 - 0.25, 6))]))
     cases.append({"kind": "tree", "route": "potable" if i % 2 else "api", "node": node, "forms": [], "tables": [], "rs": rs, "nonpositive_base": repr(n_)})
+  # pow() whose base is TINY but not zero where it is evaluated (a repulsion that has decayed to 1e-13 .. 1e-30, an energy in
+  # Joules) under a small positive exponent: the power is of ordinary size there and slopes, so "the base is switched off
+  # here" may only ever mean exactly zero (seeded change C07r10 compared with an absolute tolerance of 1e-12)
+  for i in range(12 if tier == "quick" else 120):
+    e_ = [0.1, 0.05, 0.2, 0.125][i % 4]
+    if i % 3 == 0:
+      base = {"k": "form", "name": "bornmayer", "p": [spec.rfloat(rng, 500.0, 2000.0, 1), spec.rfloat(rng, 0.25, 0.35, 3)]}
+      rs = [10.5, 12.0, 15.0, 20.0]
+    elif i % 3 == 1:
+      base = {"k": "product", "a": [{"k": "form", "name": "constant", "p": [10.0 ** -rng.choice([13, 15, 19, 25])]},
+                                    {"k": "form", "name": "polynomial", "p": [1.0, spec.rfloat(rng, 0.2, 0.8, 2)]}]}
+      rs = [0.5, 1.0, 2.5, 6.0]
+    else:
+      base = {"k": "form", "name": "buck", "p": [spec.rfloat(rng, 500.0, 2000.0, 1), spec.rfloat(rng, 0.25, 0.35, 3), 0.0]}
+      rs = [11.0, 13.0, 17.5]
+    node = {"k": "pow", "a": [base, {"k": "form", "name": "constant", "p": [e_]}]}
+    w = (i // 4) % 3
+    if w == 1:
+      node = {"k": "sum", "a": [node, spec.gen_form(rng, rmax=1.0)]}
+    elif w == 2:
+      node = {"k": "product", "a": [{"k": "form", "name": "constant", "p": [spec.rfloat(rng, 0.5, 2.0)]}, node]}
+    cases.append({"kind": "tree", "route": "potable" if i % 2 else "api", "node": node, "forms": [], "tables": [], "rs": rs, "tiny_base": repr(e_)})
   # NEGATIVE arguments (what an inner definition sees under trans() with a negative shift, or a callable evaluated left of the
   # origin): a component without an analytic derivative is differenced there as anywhere else, both stencil points left of 0
   for i in range(10 if tier == "quick" else 80):
